@@ -2,8 +2,35 @@
   A concrete number format for the non-vacuity examples of Props/C13: numbers are their decimal text.
 -/
 import Gama.Model.Export
+import Gama.Model.ExportNet
 namespace Gama.Export
+open Gama.Gen.GkfAttrs Gama.Gen.GkfDoc
 
 def strFmt : NumFmt String := ⟨id, some, "0", (· == "0")⟩
+
+/-- numbers as decimal text, `-` prefixed for the mirrored ones (for reading the examples; not lawful on every string) -/
+def strCodec : Codec String :=
+  { strFmt with neg := fun s => "-" ++ s, fmtI := toString, rdI := String.toInt?, latOut := id, latIn := id, fmtDeg := id,
+                rdDeg := fun _ => none, toSec := id, fromSec := id, pos := fun s => s != "0", lt1 := fun _ => true,
+                ellKnown := fun _ => true, sdDist := fun _ d => d }
+
+/-- a lawful instance: unary numerals (`n` is printed as `n+1` strokes), sign and unit conversions trivial -/
+def unaryCodec : Codec Nat :=
+  { fmt := fun n => String.ofList (List.replicate (n + 1) 'x'), rd := fun t => some (t.length - 1), zero := 0, isZero := (· == 0),
+    neg := id, fmtI := fun i => String.ofList (List.replicate (i + 2).toNat 'i'), rdI := fun t => some ((t.length : Int) - 2),
+    latOut := id, latIn := id, fmtDeg := fun _ => "", rdDeg := fun _ => none, toSec := id, fromSec := id,
+    pos := fun n => 0 < n, lt1 := fun _ => true, ellKnown := fun e => e == "wgs84", sdDist := fun s d => s * d }
+
+/-- a small network with every cluster kind: A fixed, B constrained in xy and free in z, C unused (not exported) -/
+def sampleNet : Net Nat :=
+  { head := ⟨.en, true, some 7⟩, descr := "sample",
+    par := ⟨10, 1, 1000, true, true, some "gso", some 50, some "wgs84", -1⟩,
+    points := [⟨"A", some (1, 2), some 3, .fixed, .fixed⟩, ⟨"B", some (4, 5), none, .constr, .free⟩,
+               ⟨"C", some (6, 7), none, .unused, .unused⟩],
+    clusters := [.obs ⟨"A", [⟨.direction, "A", "B", "", 30, 10, 0, 2, 0, "e"⟩, ⟨.angle, "A", "B", "C", 40, 10, 1, 0, 3, ""⟩]⟩
+                   (some ⟨2, 1, [100, 20, 100]⟩),
+                 .hdiffs [⟨"A", "B", 5, 2, 20, ""⟩, ⟨"B", "A", 5, 0, 3, "lev"⟩] none,
+                 .coords "gps" [⟨"B", some (4, 5), none⟩] ⟨2, 1, [1, 0, 1]⟩,
+                 .vectors [⟨"A", "B", 3, 3, 3, 0, 0, ""⟩] ⟨3, 2, [1, 0, 0, 1, 0, 1]⟩] }
 
 end Gama.Export
